@@ -73,7 +73,7 @@ CHECKS = {
     "C14": dict(
         engine="histx", category="model_checking", design="DESIGN.md section 5, C14",
         technique="exhaustive permutation enumeration: every sub-multiset (up to a size) of an item pool per scenario, created in every order, sorted by the real code; results compared across all orders of one multiset; plus the complete comparison matrix of Element::cmp over finite universes of real elements (every identifier of <= 3 / 4 characters over {a,b,0,1,2,_} and extreme digit runs; containers name x INDEX; parameter values DEFINITION-REF x INDEX x VALUE; references DEST x text; float-valued content) checked for the total-preorder axioms",
-        text="Comparator axioms: reflexive, antisymmetric, transitive on every universe, distinct names / float values never equal. Eight scenarios (key-less siblings with unsorted content; packages with names a, a1, a2, a10, a1b, b; mixed kinds in an ELEMENTS bag; containers with INDEX values incl. 0x2; parameter values keyed by DEFINITION-REF with equal keys, different values and comments; references ordered by DEST; two ordered parents) x every sub-multiset of <= 5 (thorough 7) siblings x every distinct creation order: sort never panics, keeps every element object, value, attribute and comment, leaves ordered parents untouched, keeps all path/reference invariants and strict loadability, is idempotent, and gives the same text (comments aside) for every creation order. Full documents: the full-coverage document of 5 (21) versions sorted through AutosarModel::sort and through Element::sort per package keeps the specification order of that version everywhere, loses nothing, and the same document with the children of every sortable parent reversed sorts to the same text.",
+        text="Comparator axioms: reflexive, antisymmetric, transitive on every universe, distinct names / float values never equal. Eight scenarios (key-less siblings with unsorted content; packages with names a, a1, a2, a10, a1b, b; mixed kinds in an ELEMENTS bag; containers with INDEX values incl. 0x2; parameter values keyed by DEFINITION-REF with equal keys, different values and comments; references ordered by DEST; two ordered parents) x every sub-multiset of <= 5 (thorough 7) siblings x every distinct creation order: sort never panics, keeps every element object, value, attribute and comment, leaves ordered parents untouched, keeps all path/reference invariants and strict loadability, is idempotent, and gives the same text (comments aside) for every creation order. Full documents: the full-coverage document of 5 (21) versions sorted through AutosarModel::sort and through Element::sort per package keeps the specification order of that version everywhere, loses nothing, and the same document with the children of every sortable parent reversed sorts to the same text. Names that only a non-strict load can bring in (multi-byte characters, digit first, space): every subset of <= 4 (5) of 10 names as sibling packages in every file order is loaded leniently and sorted - no panic, nothing lost, idempotent, one result per subset.",
         note="Trusted: comparison with comments removed (siblings identical up to comments may keep their order). Item pools are fixed; other names and sibling counts above the bound are outside."),
     "C15": dict(
         engine="schedx", category="model_checking", design="DESIGN.md sections 4 and 5, C15",
@@ -93,7 +93,7 @@ CHECKS = {
     "C08": dict(
         engine="specwalk", category="model_checking", design="DESIGN.md section 5, C08",
         technique="exhaustive walk of the specification graph: for every reachable (element type, sub-element) edge per version a minimal document with each applicable defect (and each pair of defects) injected; every document run through strict and lenient loading and judged by the harness's own table-driven validator",
-        text="For every element type x sub-element edge of 4 (thorough: all 21) versions: the valid single-edge document, its relabelling to 3-6 other versions, unknown / misplaced / version-foreign elements and attributes, every pair of exclusive alternatives (quick: <= 40 per type), every doubled child, missing SHORT-NAME, every missing required attribute, over-long values, pattern non-members, non-numbers, unknown / foreign / version-foreign enum items, nine malformed entities, forbidden text, and all pairs child-defect x parent/sibling-defect; plus trailing data, version labels, header variants and all prefixes of the seed documents. Oracles: strict Ok <=> lenient Ok without warnings and then equal models; lenient warnings => strict error equal to the first warning; lenient Err => strict Err; harness validator finds a documented violation => strict Err.",
+        text="For every element type x sub-element edge of 4 (thorough: all 21) versions: the valid single-edge document, its relabelling to 3-6 other versions, unknown / misplaced / version-foreign elements and attributes, every pair of exclusive alternatives (quick: <= 40 per type), every doubled child, missing SHORT-NAME, every missing required attribute, over-long values, pattern non-members, non-numbers, unknown / foreign / version-foreign enum items, nine malformed entities, forbidden text, and all pairs child-defect x parent/sibling-defect; plus trailing data (also behind a comment, processing instruction or whitespace), version labels, header variants and all prefixes of the seed documents. Oracles: strict Ok <=> lenient Ok without warnings and then equal models; lenient warnings => strict error equal to the first warning; lenient Err => strict Err; harness validator finds a documented violation => strict Err.",
         note="Trusted: harness/src/common/specvalid.rs (reads the specification tables that C18 checks). Defects deeper than one edge below the chain and more than two defects per document are outside."),
     "C17": dict(
         engine="specwalk", category="model_checking", design="DESIGN.md section 5, C17",
